@@ -221,6 +221,16 @@ func compare(c *runner.Ctx, src interface{}, desc string, nt *bool, outer ...map
 			err = valid.Struct(src, valid.RM(outer[0]))
 		} else {
 			err = valid.Struct(src)
+			// the same object once more (round 14): validating an object leaves no trace on it or about it
+			if c.Index()%2 == 0 {
+				err2 := valid.Struct(src)
+				a, b := errparse.Split(fmt.Sprint(err)), errparse.Split(fmt.Sprint(err2))
+				sort.Strings(a)
+				sort.Strings(b)
+				if strings.Join(a, "; ") != strings.Join(b, "; ") {
+					c.Violation("same-object-validated-again/different-result", map[string]interface{}{"graph": desc, "first": fmt.Sprint(err), "second": fmt.Sprint(err2)})
+				}
+			}
 		}
 	})
 	exp := walk.Struct(src, o)
